@@ -53,6 +53,9 @@ def powNat (x : α) : Nat → α
 /-- `unitNBallMeasure(N) = pow(sqrt(pi), N) / tgamma(N/2 + 1)` -/
 def unitNBallMeasure (n : Nat) : α := powNat (Num.sqrt (Num.pi : α)) n / gammaHalf n
 
+/-- `nBallMeasure(N, r) = pow(sqrt(pi) * r, N) / tgamma(N/2 + 1)` -/
+def nBallMeasure (n : Nat) (r : α) : α := powNat (Num.sqrt (Num.pi : α) * r) n / gammaHalf n
+
 /-- the loop `for i = 1 .. N-1: lmeas = lmeas * conjugateDiameter / 2.0` -/
 def radiiLoop (conj : α) : Nat → α → α
   | 0, l => l
@@ -86,6 +89,16 @@ def Phs.mk' (id : Nat) (f1 f2 : List α) (rot : List (List α)) : Phs α :=
   { id := id, dim := f1.length, f1 := f1, f2 := f2, cmin := vnorm (vsub f1 f2),
     centre := vscale half (vadd f1 f2), rot := rot, c := Num.ofNat 0, upToDate := false,
     measure := Num.ofNat 0 }
+
+/-- The rotation in dimension 2, computed by the model itself: `updateRotation` solves a Wahba problem by SVD and
+forces `det = +1`; in the plane the proper rotation whose first column is the unit focal axis `a = (f2 - f1)/cmin`
+is unique: columns `(a₀, a₁)` and `(-a₁, a₀)`.  (For n ≥ 3 the remaining columns are not unique and `rot` stays a
+parameter whose hypotheses are checked per instance.) -/
+def rot2 (f1 f2 : List α) : List (List α) :=
+  let cmin := vnorm (vsub f1 f2)
+  match (vsub f2 f1).map (· / cmin) with
+  | [a0, a1] => [[a0, a1], [-a1, a0]]
+  | _ => []
 
 /-- conjugate radius `sqrt(c² - cmin²) / 2` -/
 def conjRadius (c cmin : α) : α := Num.sqrt (c * c - cmin * cmin) / Num.ofNat 2
@@ -329,6 +342,19 @@ def baseHeuristic (starts goals : List (List α)) (thr : α) (x : List α) : Opt
     let togo := Num.max (dg - thr) (Num.ofNat 0)
     minOf (starts.map (fun s => vnorm (vsub s x) + togo))
 
+/-! ## InformedStateSampler (the `StateSampler` wrapper planners use) -/
+
+/-- `InformedStateSampler::sampleUniform(statePtr)`: call the informed sampler with the current best cost; if it
+reports failure, draw a regular sample from the base sampler instead.  `o` is the informed sampler's outcome on the
+draw stream; the fallback consumes the base part of the next draw.  Result: `(state, draws left, informedSuccess)`;
+`none` = the stream ran out. -/
+def informedStateSample (o : Out α ρ) : Option ((List α × ρ) × List (Draw α ρ) × Bool) :=
+  if o.found then some (o.st, o.rest, true)
+  else
+    match o.rest with
+    | [] => none
+    | d :: ds => some ((d.baseInf, d.baseRest), ds, false)
+
 /-! ## OrderedInfSampler -/
 
 /-- index of the first element with the smallest key (`top()` of the priority queue; ties are
@@ -368,5 +394,40 @@ def orderedSampleOld (h : σ → α) (c : α) : List (List (Wrapped σ)) → Opt
     match argBest h q with
     | none => orderedSampleOld h c bs
     | some t => if h t < c then some (t, q) else orderedSampleOld h c bs
+
+/-! ### OrderedInfSampler with its persistent queue -/
+
+/-- `top()` + `pop()` of the priority queue: the first element of smallest cost and the queue without it -/
+def popBest (h : σ → α) : List σ → Option (σ × List σ)
+  | [] => none
+  | x :: xs =>
+    match popBest h xs with
+    | none => some (x, [])
+    | some (b, rest) => if h b < h x then some (b, x :: rest) else some (x, xs)
+
+inductive OrdOut (σ S : Type) where
+  | found (t : σ) (q : List σ) (s : S)    -- returned true with `t`; `q` = the queue left; `s` = wrapped sampler state
+  | failed (s : S)                        -- returned false: a whole batch of wrapped calls failed
+  | starved                               -- fuel / draws ran out
+
+/-- `OrderedInfSampler::sampleUniform(statePtr, maxCost)` (fixed code) as a state machine over its queue `q` and the
+wrapped sampler's state `s`; `mk s` is `createBatch`: `batchSize_` wrapped calls, each `(flag, state)`.
+`while (!found) { if (empty) { createBatch; if (empty) return false; } if (h(top) < maxCost) { pop; return true; } else clearBatch; }` -/
+def orderedRun {S : Type} (h : σ → α) (c : α) (mk : S → Option (List (Wrapped σ) × S)) :
+    Nat → List σ → S → OrdOut σ S
+  | 0, _, _ => .starved
+  | fuel + 1, q, s =>
+    match q with
+    | [] =>
+      match mk s with
+      | none => .starved
+      | some (b, s') =>
+        match popBest h ((b.filter (·.1)).map (·.2)) with
+        | none => .failed s'
+        | some (t, rest) => if h t < c then .found t rest s' else orderedRun h c mk fuel [] s'
+    | _ :: _ =>
+      match popBest h q with
+      | none => .starved
+      | some (t, rest) => if h t < c then .found t rest s else orderedRun h c mk fuel [] s
 
 end OmplModel.Phs
